@@ -484,7 +484,7 @@ theorem same_redaction_same_identity_intact {H : Bytes → Bytes} {ver t1 t2 : B
 
 C04 "returned … with every field intact", C03 "identity is a function of the redacted content", C06, C17, C18: the
 library's JSON readers disagree on a text that repeats a member name (gjson / sjson: first occurrence; encoding/json:
-last), and the struct decoding reads a case variant of a field name as the field.  Since /repo 77ea759 and 4be2601 the
+last), and the struct decoding reads a case variant of a field name as the field.  Since /repo 7c511f2 and 849cf70 the
 untrusted constructors refuse both (`checkUntrustedEventJSON`). -/
 
 /-- **A text that repeats a member name in some object — at any depth — is refused**, in every room version, whatever
